@@ -513,8 +513,10 @@ func (c *pingStatusCache) load(key pingKey, ttl time.Duration, load func() *ping
 }
 
 func (c *pingStatusCache) reset() {
+	verifhook.Point("pc.reset.enter")
 	c.mu.Lock()
 	c.generation++
+	verifhook.Point("pc.reset.mid", "gen", c.generation)
 	c.cache.DeleteAll()
 	verifhook.Event("pc.reset", "gen", c.generation)
 	c.mu.Unlock()
